@@ -2,7 +2,6 @@ package poolworld
 
 import (
 	"fmt"
-	"os"
 	"strings"
 
 	"github.com/youchainhq/go-youchain/common"
@@ -194,9 +193,6 @@ func (w *world) observe(tag string) {
 			}
 			if drained && lo == stNonce+uint64(len(pl)) {
 				r.Probe("executable-left-in-queue-when-drained")
-				if os.Getenv("POOLWORLD_DEBUG") != "" && !localSet[a] {
-					r.Report("debug-executable-in-queue", "A%d pending %s queued %s (%s)", i, nonceList(pl), nonceList(ql), tag)
-				}
 			}
 		}
 		if got, want := pool.Nonce(a), stNonce+uint64(len(pl)); got != want {
